@@ -181,6 +181,28 @@ INVALID_PATTERNS = ["(", ")", "a)", "(a", "[a", "a]", "[]", "[^]", "\\d", "\\w+"
                     "[a-b-c]", "\\x41", "\\u0041", "[[:alpha:]]x(", "a{-1}"]
 
 
+# Open finding AF: the third-party `regex` engine drops the negation of a class that contains both \p{X} and
+# \P{X} for the same X ([^\p{Z}\P{Z}] matches every character instead of none).  Patterns in that region are
+# not generated (counted); the witness is replayed on every run.
+def has_af(pattern):
+    ast = iregexp.parse(pattern) if isinstance(pattern, str) else None
+    if ast is None:
+        return False
+    stack = [ast]
+    while stack:
+        x = stack.pop()
+        if isinstance(x, tuple):
+            if x and x[0] == "class" and x[1]:
+                pos = {i[1] for i in x[2] if i[0] == "cat" and not i[2]}
+                neg = {i[1] for i in x[2] if i[0] == "cat" and i[2]}
+                if pos & neg:
+                    return True
+            stack.extend(y for y in x if isinstance(y, (tuple, list)))
+        elif isinstance(x, list):
+            stack.extend(x)
+    return False
+
+
 # ---------------------------------------------------------------- oracle
 def build(case):
     fn, delivery = case["fn"], case["delivery"]
@@ -258,7 +280,7 @@ def pattern_features(p):
 def plan(tier, seed):
     specs = [{"mode": "fixed"}]
     if tier == "quick":
-        specs += [{"mode": "hyp", "n": 250} for _ in range(16)]
+        specs += [{"mode": "hyp", "n": 600} for _ in range(16)]
     else:
         specs += [{"mode": "hyp", "n": 8000} for _ in range(16)]
     return specs
@@ -304,6 +326,9 @@ def run_shard(spec, shard):
         ast = iregexp.parse(pattern)
         if ast is None:
             raise HarnessError(f"generator produced a pattern the reference rejects: {pattern!r}")
+        if has_af(pattern):
+            shard.excluded["AF:negated-class-with-both-\\p{X}-and-\\P{X}"] += 1
+            return
         subjects = [gen_subject(ast, r) for _ in range(nsub)]
         delivery = r.choice(["literal", "literal-dq", "doc", "doc"])
         for fn in ("match", "search"):
@@ -336,7 +361,8 @@ def minimise(case, failure, tier):
     if not same(cur):
         cur = dict(case)
     if isinstance(cur["pattern"], str) and iregexp.valid(cur["pattern"]):
-        p = shrink.shrink_text(cur["pattern"], lambda t: iregexp.valid(t) and same(dict(cur, pattern=t)),
+        af = has_af(cur["pattern"])
+        p = shrink.shrink_text(cur["pattern"], lambda t: iregexp.valid(t) and has_af(t) == af and same(dict(cur, pattern=t)),
                                shrink.Budget(1500))
         cur["pattern"] = p
     if len(cur["subjects"]) == 1 and isinstance(cur["subjects"][0], str):
@@ -346,4 +372,6 @@ def minimise(case, failure, tier):
 
 
 def signature(case, failure):
+    if has_af(case.get("pattern")) and "false-positive" in failure["bucket"]:
+        return "C11:regex-engine:negated-class-with-complementary-categories"
     return f"C11:{failure['bucket']}"
